@@ -1,5 +1,7 @@
 """Workloads for real end-to-end runs: inputs, scripted-command specs and
 option sets, shared by the real-run checks."""
+import os
+
 from . import gen_smt, realrun, refreader
 
 STRATEGIES = ['ddmin', 'hierarchical', 'hybrid']
@@ -20,8 +22,50 @@ def small_script(r, size='small', theories=None, quoted=False):
     return s
 
 
-def render_with_noise(r, nested, comments=True):
-    """Render a script to text with comments and varied layout."""
+# Commands and term forms that benchmarks contain but the typed generator does
+# not build (every group is self-contained: its names start with u_ / U)
+UNCOMMON = [
+    ['(push 1)', '(assert (> 1 0))', '(pop 1)'],
+    ['(define-sort USort () Int)', '(declare-const u_ds USort)',
+     '(assert (= u_ds u_ds))'],
+    ['(define-sort UArr (X) (Array X X))', '(declare-const u_da (UArr Int))',
+     '(assert (= (select u_da 0) 0))'],
+    ['(define-fun-rec u_rf ((u_n Int)) Int '
+     '(ite (< u_n 1) 0 (u_rf (- u_n 1))))', '(assert (= (u_rf 2) 0))'],
+    ['(define-funs-rec ((u_f1 ((u_a Int)) Int) (u_f2 ((u_b Int)) Int)) '
+     '((u_f2 (+ u_a 1)) (u_f1 (- u_b 1))))'],
+    ['(declare-datatypes ((UList 1)) ((par (T) ((unil) '
+     '(ucons (uhd T) (utl (UList T)))))))', '(declare-const u_l (UList Int))',
+     '(assert (= u_l (as unil (UList Int))))',
+     '(assert (match u_l ((unil true) ((ucons u_h u_t) (> u_h 0)))))'],
+    ['(get-info :reason-unknown)', '(echo "a ""quoted"" message")',
+     '(get-value ((+ 1 2)))'],
+    ['(declare-fun u_g (Int) Int)',
+     '(assert (! (forall ((u_q Int)) (! (> (u_g u_q) 0) '
+     ':pattern ((u_g u_q)))) :named u_name))', '(get-unsat-core)'],
+    ['(declare-const u_s (Set Int))', '(assert (set.member 1 u_s))',
+     '(declare-const u_tp (Tuple Int Bool))',
+     '(assert ((_ tuple.select 1) u_tp))'],
+    ['(set-info :source |two\nlines|)', '(set-option :random-seed 5)'],
+    ['(declare-const u_b1 Bool)', '(declare-const u_b2 Bool)',
+     '(check-sat-assuming (u_b1 (not u_b2)))', '(get-unsat-assumptions)'],
+    ['(declare-sort U 0)', '(declare-fun u_p (U) Bool)',
+     '(assert (exists ((u_x U)) (u_p u_x)))'],
+    ['(declare-const u_bag (Bag String))', '(declare-const u_sq (Seq Int))',
+     '(assert (= (seq.len u_sq) 2))'],
+    ['(define-const u_c Int 3)', '(assert (< u_c 4))'],
+    ['(assert (let ((u_x 1) (u_y 2)) (let ((u_x u_y)) (= u_x 2))))'],
+    ['(reset-assertions)', '(reset)'],
+]
+
+
+def render_with_noise(r, nested, comments=True, uncommon=None):
+    """Render a script to text with comments and varied layout.  One script
+    in four (or ``uncommon``) also gets one or two groups of less common
+    commands."""
+    if uncommon is None:
+        uncommon = r.random() < 0.25 or \
+            os.environ.get('VERIF_UNCOMMON') == '1'
     lines = []
     for c in nested:
         line = refreader.render([c]).rstrip('\n')
@@ -30,6 +74,10 @@ def render_with_noise(r, nested, comments=True):
         if comments and r.random() < 0.1:
             line += ' ; trailing'
         lines.append(line)
+    if uncommon:
+        for group in r.sample(UNCOMMON, r.randint(1, 2)):
+            at = r.randint(1 if lines else 0, len(lines))
+            lines[at:at] = group
     return '\n'.join(lines) + '\n'
 
 
